@@ -1,6 +1,7 @@
 package main
 
 import (
+	"sort"
 	"strconv"
 	"strings"
 )
@@ -13,7 +14,10 @@ type c09Gen struct {
 	maxDepth               int
 	r                      *Rng
 	nid, nval, nfn, np, nc int
-	visFn, visCf           []string // definitions callable from here
+	nrid                   int
+	visFn, visCf           []string            // definitions callable from here
+	params                 map[string][]string // function name -> its parameters
+	scope                  []string            // names bound so far in the enclosing blocks (approximation, steers operand())
 }
 
 func (g *c09Gen) val() string {
@@ -28,17 +32,64 @@ func (g *c09Gen) probe(name string) *c09Node {
 
 func (g *c09Gen) name() string { return Pick(g.r, c09Names) }
 
-func (g *c09Gen) data() [][2]string {
+func (g *c09Gen) lit() c09Arg { return c09Arg{Lit: g.val()} }
+
+func (g *c09Gen) ref(name string) c09Arg {
+	g.nrid++
+	return c09Arg{Var: name, RID: g.nrid}
+}
+
+// operand: a literal, a read of one of the names (prefer: names the receiving construct binds itself, so
+// that `f(y, x)` for fn(x, y), {x: y, y: x}, let x = x are common), or - pCall - a call of a visible function.
+func (g *c09Gen) operand(pVar, pCall, nest int, prefer []string) c09Arg {
 	r := g.r
-	d := [][2]string{}
+	w := r.Intn(100)
+	switch {
+	case w < pVar:
+		both := []string{}
+		for _, n := range prefer {
+			if c09In(g.scope, n) {
+				both = append(both, n)
+			}
+		}
+		switch {
+		case len(both) > 0 && r.Chance(45):
+			return g.ref(Pick(r, both))
+		case len(g.scope) > 0 && r.Chance(70):
+			return g.ref(Pick(r, g.scope))
+		}
+		return g.ref(g.name())
+	case w < pVar+pCall && nest < 2 && len(g.visFn) > 0:
+		return c09Arg{Call: g.call(Pick(r, g.visFn), nest+1)}
+	}
+	return g.lit()
+}
+
+// call of a defined function: one operand per parameter, evaluated in the caller's scope.
+func (g *c09Gen) call(name string, nest int) *c09Node {
+	n := &c09Node{T: "call", Name: name}
+	ps := g.params[name]
+	for range ps {
+		n.Args = append(n.Args, g.operand(40, 15, nest, ps))
+	}
+	return n
+}
+
+func (g *c09Gen) data() []c09Datum {
+	r := g.r
+	d := []c09Datum{}
+	keys := []string{}
 	switch r.Intn(4) {
 	case 0:
 	case 1, 2:
-		d = append(d, [2]string{g.name(), g.val()})
+		keys = append(keys, g.name())
 	default:
 		a := r.Intn(3)
 		b := (a + 1 + r.Intn(2)) % 3
-		d = append(d, [2]string{c09Names[a], g.val()}, [2]string{c09Names[b], g.val()})
+		keys = append(keys, c09Names[a], c09Names[b])
+	}
+	for _, k := range keys {
+		d = append(d, c09Datum{K: k, A: g.operand(30, 0, 2, keys)})
 	}
 	return d
 }
@@ -46,6 +97,9 @@ func (g *c09Gen) data() [][2]string {
 // body of a construct: probes first and last, a block in between. bound: names the construct itself binds.
 func (g *c09Gen) body(depth int, inFn bool, bound []string) []*c09Node {
 	r := g.r
+	ns := len(g.scope)
+	defer func() { g.scope = g.scope[:ns] }()
+	g.scope = append(g.scope, bound...)
 	out := []*c09Node{}
 	for _, n := range bound {
 		if r.Chance(55) {
@@ -73,12 +127,12 @@ func c09BoundIn(ns []*c09Node, set map[string]bool) {
 				set[n.K] = true
 			}
 		case "fndef":
-			if n.P != "" {
-				set[n.P] = true
+			for _, p := range n.Ps {
+				set[p] = true
 			}
 		}
 		for _, d := range n.Data {
-			set[d[0]] = true
+			set[d.K] = true
 		}
 		c09BoundIn(n.Body, set)
 	}
@@ -87,8 +141,8 @@ func c09BoundIn(ns []*c09Node, set map[string]bool) {
 // block: lets, probes, constructs. noLet: directly inside an if (not a scope; left open).
 func (g *c09Gen) block(depth int, inFn, noLet bool) []*c09Node {
 	r := g.r
-	nf, nc := len(g.visFn), len(g.visCf)
-	defer func() { g.visFn, g.visCf = g.visFn[:nf], g.visCf[:nc] }()
+	nf, nc, ns := len(g.visFn), len(g.visCf), len(g.scope)
+	defer func() { g.visFn, g.visCf, g.scope = g.visFn[:nf], g.visCf[:nc], g.scope[:ns] }()
 	out := []*c09Node{}
 	items := r.Range(1, 3)
 	if depth == 0 {
@@ -99,14 +153,15 @@ func (g *c09Gen) block(depth int, inFn, noLet bool) []*c09Node {
 		switch {
 		case w < 25 && !noLet:
 			n := g.name()
-			out = append(out, &c09Node{T: "let", Name: n, Val: g.val()})
+			out = append(out, &c09Node{T: "let", Name: n, A: g.operand(15, 6, 1, []string{n})})
+			g.scope = append(g.scope, n)
 			if r.Chance(40) {
 				out = append(out, g.probe(n))
 			}
 		case w < 40:
 			out = append(out, g.probe(g.name()))
 		case w < 47 && len(g.visFn) > 0: // call a function defined further out / earlier
-			out = append(out, &c09Node{T: "call", Name: Pick(r, g.visFn), Val: g.val()})
+			out = append(out, g.call(Pick(r, g.visFn), 0))
 			out = append(out, g.probe(g.name()))
 		case w < 53 && len(g.visCf) > 0 && !inFn:
 			out = append(out, &c09Node{T: "cfcall", Name: Pick(r, g.visCf), Data: g.data()})
@@ -141,7 +196,7 @@ func (g *c09Gen) construct(depth int, inFn bool) []*c09Node {
 	filler := func() []*c09Node { // between a definition and its use
 		switch r.Intn(4) {
 		case 0:
-			return []*c09Node{{T: "let", Name: g.name(), Val: g.val()}}
+			return []*c09Node{{T: "let", Name: g.name(), A: g.lit()}}
 		case 1:
 			return []*c09Node{g.probe(g.name())}
 		}
@@ -155,8 +210,8 @@ func (g *c09Gen) construct(depth int, inFn bool) []*c09Node {
 				n.K = g.name()
 			}
 		}
-		for i, k := 0, r.Range(1, 2); i < k; i++ {
-			n.Elems = append(n.Elems, g.val())
+		for i, k := 0, r.Range(1, 2); i < k; i++ { // elements may read outer variables, also the one the loop variable shadows
+			n.Elems = append(n.Elems, g.operand(25, 0, 2, []string{n.V}))
 		}
 		if r.Chance(4) {
 			n.Elems = nil
@@ -170,18 +225,32 @@ func (g *c09Gen) construct(depth int, inFn bool) []*c09Node {
 	case w < 44:
 		g.nfn++
 		d := &c09Node{T: "fndef", Name: "f" + strconv.Itoa(g.nfn)}
-		b := []string{}
-		if r.Chance(80) {
-			d.P = g.name()
-			b = append(b, d.P)
+		np := 0
+		switch w := r.Intn(100); {
+		case w < 18:
+		case w < 55:
+			np = 1
+		case w < 90:
+			np = 2
+		default:
+			np = 3
 		}
-		d.Body = g.body(depth+1, true, b)
+		perm := []int{0, 1, 2}
+		for i := 2; i > 0; i-- {
+			j := r.Intn(i + 1)
+			perm[i], perm[j] = perm[j], perm[i]
+		}
+		for i := 0; i < np; i++ {
+			d.Ps = append(d.Ps, c09Names[perm[i]])
+		}
+		g.params[d.Name] = d.Ps
+		d.Body = g.body(depth+1, true, d.Ps)
 		out := []*c09Node{d}
 		if depth >= 2 || r.Chance(75) { // otherwise only called from deeper blocks / later
 			out = append(out, filler()...)
-			out = append(out, &c09Node{T: "call", Name: d.Name, Val: g.val()})
+			out = append(out, g.call(d.Name, 0)) // d itself is not visible yet: no recursion
 			if r.Chance(15) {
-				out = append(out, &c09Node{T: "call", Name: d.Name, Val: g.val()})
+				out = append(out, g.call(d.Name, 0))
 			}
 		}
 		g.visFn = append(g.visFn, d.Name)
@@ -191,7 +260,7 @@ func (g *c09Gen) construct(depth int, inFn bool) []*c09Node {
 		n := &c09Node{T: "partial", Name: "p" + strconv.Itoa(g.np), Data: g.data()}
 		b := []string{}
 		for _, d := range n.Data {
-			b = append(b, d[0])
+			b = append(b, d.K)
 		}
 		n.Body = g.body(depth+1, inFn, b)
 		return []*c09Node{n}
@@ -201,7 +270,7 @@ func (g *c09Gen) construct(depth int, inFn bool) []*c09Node {
 		c := &c09Node{T: "cfcall", Name: d.Name, Data: g.data()}
 		b := []string{}
 		for _, x := range c.Data {
-			b = append(b, x[0])
+			b = append(b, x.K)
 		}
 		d.Body = g.body(depth+1, inFn, b)
 		out := []*c09Node{d}
@@ -216,7 +285,7 @@ func (g *c09Gen) construct(depth int, inFn bool) []*c09Node {
 		n := &c09Node{T: "cof", Name: "z" + strconv.Itoa(g.nc), Data: g.data()}
 		b := []string{}
 		for _, d := range n.Data {
-			b = append(b, d[0])
+			b = append(b, d.K)
 		}
 		n.Body = g.body(depth+1, inFn, b)
 		return []*c09Node{n}
@@ -224,7 +293,7 @@ func (g *c09Gen) construct(depth int, inFn bool) []*c09Node {
 		n := &c09Node{T: "blk", Data: g.data()}
 		b := []string{}
 		for _, d := range n.Data {
-			b = append(b, d[0])
+			b = append(b, d.K)
 		}
 		n.Body = g.body(depth+1, inFn, b)
 		return []*c09Node{n}
@@ -256,6 +325,10 @@ func c09Label(ns []*c09Node, enclosing string) {
 			c09Label(n.Body, "fn-call")
 		case "cfdef":
 			c09Label(n.Body, "contentFor")
+		case "let":
+			if n.A.Call != nil {
+				last = "fn-call"
+			}
 		default:
 			if k, ok := c09Kind[n.T]; ok {
 				c09Label(n.Body, k)
@@ -297,13 +370,38 @@ func c09Shape(ns []*c09Node) string {
 
 type c09Printer struct {
 	always   map[int]bool // probe id -> bound at every execution in every reading
+	unsafe   map[int]bool // variable read id -> may meet an unbound name, nil or a call's value
 	partials map[string]string
 }
 
-func c09Hash(d [][2]string) string {
+// arg: a variable read is written as the bare identifier whenever the reference interpreter says the name is
+// bound to a known non-nil value at every execution in every reading; otherwise (plush rejects an identifier
+// that is unbound or nil, which is not this property's business) it is read through a helper's HelperContext.
+func (p *c09Printer) arg(a c09Arg) string {
+	switch {
+	case a.Call != nil:
+		return p.callExpr(a.Call)
+	case a.Var != "":
+		if p.unsafe[a.RID] {
+			return "c09v(" + strconv.Quote(a.Var) + ")"
+		}
+		return a.Var
+	}
+	return strconv.Quote(a.Lit)
+}
+
+func (p *c09Printer) callExpr(n *c09Node) string {
+	as := []string{}
+	for _, a := range n.Args {
+		as = append(as, p.arg(a))
+	}
+	return n.Name + "(" + strings.Join(as, ", ") + ")"
+}
+
+func (p *c09Printer) hash(d []c09Datum) string {
 	ss := []string{}
-	for _, p := range d {
-		ss = append(ss, p[0]+": "+strconv.Quote(p[1]))
+	for _, x := range d {
+		ss = append(ss, x.K+": "+p.arg(x.A))
 	}
 	return "{" + strings.Join(ss, ", ") + "}"
 }
@@ -313,7 +411,7 @@ func (p *c09Printer) print(ns []*c09Node, inFn bool) string {
 	for _, n := range ns {
 		switch n.T {
 		case "let":
-			b.WriteString("<% let " + n.Name + " = " + strconv.Quote(n.Val) + " %>")
+			b.WriteString("<% let " + n.Name + " = " + p.arg(n.A) + " %>")
 		case "probe":
 			id := strconv.Itoa(n.ID)
 			b.WriteString("<% c09p(" + id + ", " + strconv.Quote(n.Name) + ") %>")
@@ -329,7 +427,7 @@ func (p *c09Printer) print(ns []*c09Node, inFn bool) string {
 		case "for":
 			es := []string{}
 			for _, e := range n.Elems {
-				es = append(es, strconv.Quote(e))
+				es = append(es, p.arg(e))
 			}
 			head := "(" + n.V + ")"
 			if n.K != "" {
@@ -337,15 +435,15 @@ func (p *c09Printer) print(ns []*c09Node, inFn bool) string {
 			}
 			b.WriteString("<%= for " + head + " in [" + strings.Join(es, ", ") + "] { %>" + p.print(n.Body, inFn) + "<% } %>")
 		case "fndef":
-			b.WriteString("<% let " + n.Name + " = fn(" + n.P + ") { %>" + p.print(n.Body, true) + "<% } %>")
+			b.WriteString("<% let " + n.Name + " = fn(" + strings.Join(n.Ps, ", ") + ") { %>" + p.print(n.Body, true) + "<% } %>")
 		case "call":
-			b.WriteString("<%= " + n.Name + "(" + strconv.Quote(n.Val) + ") %>")
+			b.WriteString("<%= " + p.callExpr(n) + " %>")
 		case "partial":
 			p.partials[n.Name] = p.print(n.Body, inFn)
 			if len(n.Data) == 0 {
 				b.WriteString("<%= partial(" + strconv.Quote(n.Name) + ") %>")
 			} else {
-				b.WriteString("<%= partial(" + strconv.Quote(n.Name) + ", " + c09Hash(n.Data) + ") %>")
+				b.WriteString("<%= partial(" + strconv.Quote(n.Name) + ", " + p.hash(n.Data) + ") %>")
 			}
 		case "cfdef":
 			b.WriteString("<% contentFor(" + strconv.Quote(n.Name) + ") { %>" + p.print(n.Body, inFn) + "<% } %>")
@@ -353,12 +451,12 @@ func (p *c09Printer) print(ns []*c09Node, inFn bool) string {
 			if len(n.Data) == 0 {
 				b.WriteString("<%= contentOf(" + strconv.Quote(n.Name) + ") %>")
 			} else {
-				b.WriteString("<%= contentOf(" + strconv.Quote(n.Name) + ", " + c09Hash(n.Data) + ") %>")
+				b.WriteString("<%= contentOf(" + strconv.Quote(n.Name) + ", " + p.hash(n.Data) + ") %>")
 			}
 		case "cof":
-			b.WriteString("<%= contentOf(" + strconv.Quote(n.Name) + ", " + c09Hash(n.Data) + ") { %>" + p.print(n.Body, inFn) + "<% } %>")
+			b.WriteString("<%= contentOf(" + strconv.Quote(n.Name) + ", " + p.hash(n.Data) + ") { %>" + p.print(n.Body, inFn) + "<% } %>")
 		case "blk":
-			b.WriteString("<%= c09with(" + c09Hash(n.Data) + ") { %>" + p.print(n.Body, inFn) + "<% } %>")
+			b.WriteString("<%= c09with(" + p.hash(n.Data) + ") { %>" + p.print(n.Body, inFn) + "<% } %>")
 		}
 	}
 	return b.String()
@@ -374,10 +472,59 @@ func c09Static(ns []*c09Node, inFn bool, text map[int]bool, byID map[int]*c09Nod
 	}
 }
 
+// c09Features: which operand forms a program has (input-distribution tags, kept in the case for replay).
+func c09Features(ns []*c09Node, unsafe map[int]bool, params map[string][]string, set map[string]bool) {
+	var operand func(pos string, a c09Arg)
+	var call func(n *c09Node)
+	operand = func(pos string, a c09Arg) {
+		switch {
+		case a.Call != nil:
+			set[pos+"=call"] = true
+			call(a.Call)
+		case a.Var != "" && unsafe[a.RID]:
+			set[pos+"=var-via-helper"] = true
+		case a.Var != "":
+			set[pos+"=var"] = true
+		}
+	}
+	call = func(n *c09Node) {
+		ps := params[n.Name]
+		set["call-arity="+strconv.Itoa(len(n.Args))] = true
+		for i, a := range n.Args {
+			operand("arg", a)
+			if a.Var != "" && i < len(ps) && c09In(ps, a.Var) {
+				f := "arg=var-named-as-parameter"
+				if !unsafe[a.RID] && c09In(ps[:i], a.Var) {
+					f = "arg=var-named-as-earlier-parameter"
+				}
+				set[f] = true
+			}
+		}
+	}
+	for _, n := range ns {
+		switch n.T {
+		case "fndef":
+			params[n.Name] = n.Ps
+		case "let":
+			operand("let", n.A)
+		case "call":
+			call(n)
+		case "for":
+			for _, e := range n.Elems {
+				operand("elem", e)
+			}
+		}
+		for _, d := range n.Data {
+			operand("data", d.A)
+		}
+		c09Features(n.Body, unsafe, params, set)
+	}
+}
+
 // c09Build: program -> case (labels, prediction, template).
 func c09Build(prog []*c09Node) *c09Case {
 	c09Label(prog, "")
-	ids, allowed := c09Predict(prog)
+	ids, allowed, dyn, unsafe := c09Predict(prog)
 	text, byID := map[int]bool{}, map[int]*c09Node{}
 	c09Static(prog, false, text, byID)
 	always := map[int]bool{}
@@ -394,14 +541,20 @@ func c09Build(prog []*c09Node) *c09Case {
 			always[id] = always[id] && ok
 		}
 	}
-	p := &c09Printer{always: always, partials: map[string]string{}}
+	p := &c09Printer{always: always, unsafe: unsafe, partials: map[string]string{}}
 	cs := &c09Case{Tmpl: p.print(prog, false), Shape: c09Shape(prog)}
 	if len(p.partials) > 0 {
 		cs.Partials = p.partials
 	}
+	feat := map[string]bool{}
+	c09Features(prog, unsafe, map[string][]string{}, feat)
+	for f := range feat {
+		cs.Feat = append(cs.Feat, f)
+	}
+	sort.Strings(cs.Feat)
 	for i, id := range ids {
 		n := byID[id]
-		cs.Seq = append(cs.Seq, c09Expect{ID: id, Name: n.Name, Want: allowed[i], Text: text[id], Label: n.Label})
+		cs.Seq = append(cs.Seq, c09Expect{ID: id, Name: n.Name, Want: allowed[i], Text: text[id], Label: n.Label, Dyn: dyn[i]})
 	}
 	return cs
 }
@@ -427,6 +580,36 @@ func c09Variants(ns []*c09Node) [][]*c09Node {
 			c.Data = n.Data[1:]
 			out = append(out, repl(i, []*c09Node{&c}))
 		}
+		// operands: a nested call -> a literal (any depth); a variable read -> a literal
+		simpler := func(a c09Arg) (c09Arg, bool) {
+			if a.Call == nil && a.Var == "" {
+				return a, false
+			}
+			return c09Arg{Lit: "s" + strconv.Itoa(i)}, true
+		}
+		if a, ok := simpler(n.A); ok && n.T == "let" {
+			c := *n
+			c.A = a
+			out = append(out, repl(i, []*c09Node{&c}))
+		}
+		for _, as := range c09ArgVariants(n.Args, simpler) {
+			c := *n
+			c.Args = as
+			out = append(out, repl(i, []*c09Node{&c}))
+		}
+		for _, as := range c09ArgVariants(n.Elems, simpler) {
+			c := *n
+			c.Elems = as
+			out = append(out, repl(i, []*c09Node{&c}))
+		}
+		for j, d := range n.Data {
+			if a, ok := simpler(d.A); ok {
+				c := *n
+				c.Data = append([]c09Datum{}, n.Data...)
+				c.Data[j].A = a
+				out = append(out, repl(i, []*c09Node{&c}))
+			}
+		}
 		for _, v := range c09Variants(n.Body) {
 			c := *n
 			c.Body = v
@@ -434,6 +617,37 @@ func c09Variants(ns []*c09Node) [][]*c09Node {
 		}
 	}
 	return out
+}
+
+func c09ArgVariants(as []c09Arg, simpler func(c09Arg) (c09Arg, bool)) [][]c09Arg {
+	out := [][]c09Arg{}
+	for j, a := range as {
+		set := func(x c09Arg) {
+			c := append([]c09Arg{}, as...)
+			c[j] = x
+			out = append(out, c)
+		}
+		if x, ok := simpler(a); ok {
+			set(x)
+		}
+		if a.Call != nil {
+			for _, sub := range c09ArgVariants(a.Call.Args, simpler) {
+				c := *a.Call
+				c.Args = sub
+				set(c09Arg{Call: &c})
+			}
+		}
+	}
+	return out
+}
+
+func c09CallsVisible(as []c09Arg, vis map[string]bool) bool {
+	for _, a := range as {
+		if a.Call != nil && (!vis[a.Call.Name] || !c09CallsVisible(a.Call.Args, vis)) {
+			return false
+		}
+	}
+	return true
 }
 
 // c09Valid: every call / contentOf names a definition that ran earlier in the same or an enclosing block,
@@ -452,6 +666,9 @@ func c09Valid(ns []*c09Node, vis map[string]bool) bool {
 				return false
 			}
 		}
+		if !c09CallsVisible(n.Args, vis) || !c09CallsVisible([]c09Arg{n.A}, vis) {
+			return false
+		}
 		if !c09Valid(n.Body, vis) {
 			return false
 		}
@@ -468,7 +685,7 @@ func c09Valid(ns []*c09Node, vis map[string]bool) bool {
 func c09Generate(cfg Config, rep *Report, r *Rng) {
 	total := cfg.N(18000, 200000)
 	for i := 0; i < total && !rep.Full(); i++ {
-		g := &c09Gen{r: r, maxDepth: 3}
+		g := &c09Gen{r: r, maxDepth: 3, params: map[string][]string{}}
 		if i < total/8 { // small programs first: the report keeps the shortest failing case per family
 			g.maxDepth = 1 + i%2
 		}
